@@ -40,7 +40,67 @@ func c11Specs() []*bfsSpec {
 	}
 }
 
-func TestVerifC11(t *testing.T) { runSpecs(t, "C11", c11Specs()) }
+// pexLiveness: after three more PEX rounds every remote's view of the swarm (as
+// told over PEX) names exactly the peers that are connected and can be
+// announced (outgoing connections; an incoming one has no known listening port).
+func pexLiveness(w *World) {
+	for i := 0; i < 3; i++ {
+		w.apply("adv:61")
+		w.checkInvariants()
+	}
+	if len(w.prob) > 0 || w.loopDead {
+		return
+	}
+	for _, r := range w.remotes {
+		if r.closed || r.exited() || r.cfg.Pex == 0 || !r.sentExt0 {
+			continue
+		}
+		for k := range r.pexKnown {
+			alive := false
+			for _, o := range w.remotes {
+				if o != r && !o.closed && !o.exited() && o.p.IP == k.Addr() {
+					alive = true
+				}
+			}
+			if !alive {
+				w.problem("C11", "C11/pex-world/departure-never-reported", "three PEX rounds after it left, remote %d still has %v on its list: the departure is never reported", r.idx, k)
+			}
+		}
+		for _, o := range w.remotes {
+			if o == r || o.closed || o.exited() || o.cfg.Incoming {
+				continue
+			}
+			found := false
+			for k := range r.pexKnown {
+				if k.Addr() == o.p.IP {
+					found = true
+				}
+			}
+			if !found {
+				w.problem("C11", "C11/pex-world/peer-never-announced", "three PEX rounds later remote %d has still not been told about connected peer %d (%v)", r.idx, o.idx, o.p.IP)
+			}
+		}
+	}
+}
+
+func c11WorldExtras() []*bfsSpec {
+	pexer := peerCfg{Ext: true, Pex: 9, DontHave: 7}
+	natted := peerCfg{Ext: true, Pex: 9, ExtPort: 7777} // listens on another port than the one we dialled
+	incoming := peerCfg{Ext: true, Pex: 9, Incoming: true, ExtPort: 6999}
+	return []*bfsSpec{
+		// the advertised queue depth counts whether or not the handshake also carries an "m" dictionary
+		{Name: "c11-reqq-without-m", Cfg: worldCfg{Geom: "g2x2", Peers: []peerCfg{{Ext: true, ReqQ: 2, NoM: true}}, AutoDrain: true},
+			Setup:    []string{"bf:0:3", "unchoke:0", "want:0:1", "want:1:0", "cmd:0:0", "cmd:0:1", "cmd:0:2", "cmd:0:3"},
+			Alphabet: []string{"ans:0:old:full", "ans:0:new:full", "adv:2", "adv:31", "tick", "choke:0", "unchoke:0", "unwant:1:0", "cmd:0:2", "cmd:0:3"},
+			Depth: 5, DepthT: 7},
+		// peer exchange at the level of the torrent: who is announced to whom, under which address, and who is dropped
+		{Name: "c11-pex-world", Cfg: worldCfg{Geom: "g2x2", Peers: []peerCfg{natted, pexer, incoming}, AutoDrain: true},
+			Alphabet: []string{"adv:61", "adv:2", "close:0", "close:1", "close:2", "addpeer:2", "bf:0:3"},
+			Depth: 4, DepthT: 5, Live: pexLiveness},
+	}
+}
+
+func TestVerifC11(t *testing.T) { runSpecs(t, "C11", append(c11Specs(), c11WorldExtras()...)) }
 
 // TestVerifC11Sweeps: the initial advertisement for every piece count and local
 // piece set, and the peer-exchange state machine.
